@@ -41,7 +41,7 @@ import (
 var Modes = []string{"scribble", "poll", "listener-reads", "listener-prune"}
 
 // HangTimeout is how long a call may take before it is declared hung.
-var HangTimeout = 10 * time.Second
+var HangTimeout = 30 * time.Second
 
 type extState struct {
 	on            bool
